@@ -103,6 +103,12 @@ CHECKS = {
         text="Random format strings (1-8 pieces: ASCII and multi-byte literals, every escape incl. \\NNN, %%, directives p f h H P d s n i U G m y Y l with optional '-' flag and width 0-40) rendered for every entry of a tree with all file types, links to file/dir/fifo/dangling, setuid/setgid/sticky modes, foreign owners, hard links and multi-byte names, under 19 starting-point spellings (r, ./r, r/, ., ./, absolute, absolute/, sub-directory, link to directory, link/, link to file, dangling link, file, several roots, r//, inner //) and -P/-H/-L. Quick ~3200 formats / ~50k (format, entry) renderings, 180 (directive, mode, flag, width) cells.",
         note="Known finding percent-H-root-with-trailing-slash matched by exact re-rendering. Not judged: leading zeros of %m, \\NNN above 177, width on non-ASCII values, %Y under -H/-L and for dangling links, %l for links the follow mode resolves, %h with // or directly below /, %f/%h of dot components.",
         ref="DESIGN.md section 4 C16"),
+    "C18": dict(
+        technique="runtime monitoring: per-starting-point reference walk (paths formed textually from the starting point as spelled) compared with the -print0 output, stderr and exit status of the real binary; operands vs -files0-from equivalence as an oracle-free relation",
+        level="exploration",
+        text="Lists of 0-5 starting points over 42 spellings (d ./d d/ d// d/. x/../d absolute .//d ../a . ./ .. ../, links, files, dangling links, names with blanks, multi-byte names, a lone '-', missing names, duplicates, nested ones) given as operands, as no operand, and as NUL-separated lists from a file and from stdin (with/without final NUL, with empty names, with names starting with '-', '!' '(' or containing a newline). -sorted runs are compared as exact sequences, the others as per-starting-point multisets in the order given; equivalent operand/-files0-from pairs must give identical output and exit status.",
+        note="Exit status after an empty -files0-from name is not judged (statement: diagnosed and skipped); valid UTF-8 names; follow mode -P.",
+        ref="DESIGN.md section 4 C18"),
     "C19": dict(
         technique="runtime monitoring: scripted recorder outcomes, exit status and number of invocations started vs the documented function; bounded-exhaustive over outcome classes",
         level="exploration",
